@@ -649,8 +649,9 @@ def check_curve(ctx, prop):
     sany(ctx, "CurveLength")
     cases = os.path.join(ctx.work, "curve.ndjson")
     if thorough:
+        # (four steps over the small step set add little to three steps over the full one and cost 40 minutes of
+        # single-threaded initial-state enumeration)
         curve_cases(ctx, 3, "full", cases)
-        curve_cases(ctx, 4, "small", cases)
     else:
         curve_cases(ctx, 2, "full", cases)
         curve_cases(ctx, 3, "small", cases)
